@@ -1368,6 +1368,34 @@ def slice_eq(ip, st, a, b):
     return out
 
 
+def _affix(prefix, strip):
+    # <[T]>::{starts_with, ends_with, strip_prefix, strip_suffix}(needle)
+    def f(ip, frame, bb, st, callee, args, dty):
+        hay = as_slice(ip, st, args[0])
+        nd = as_slice(ip, st, args[1])
+        out = []
+
+        def no(s):
+            out.append((s, mk(OPT, 0) if strip else FALSE))
+        a, b = fork_cmp(st, "Le", nd.n, hay.n)
+        if b is not None:
+            no(b)
+        if a is not None:
+            off = Lin.const(0) if prefix else hay.n - nd.n
+            part = VSlice(hay.root, hay.steps, hay.start + off, nd.n, hay.mut)
+            for s2, e in slice_eq(ip, a, part, nd):
+                for s3 in ip.branch(s2, e, True):
+                    if strip:
+                        rest = VSlice(hay.root, hay.steps, hay.start + (nd.n if prefix else Lin.const(0)), hay.n - nd.n, hay.mut)
+                        out.append((s3, mk(OPT, 1, rest)))
+                    else:
+                        out.append((s3, TRUE))
+                for s3 in ip.branch(s2, e, False):
+                    no(s3)
+        return out
+    return f
+
+
 def s_slice_eq(ip, frame, bb, st, callee, args, dty):
     a, b = as_slice(ip, st, args[0]), as_slice(ip, st, args[1])
     return [(s2, VBool(e)) for s2, e in slice_eq(ip, st, a, b)]
@@ -1821,6 +1849,10 @@ def install(ip):
     E["core::slice::<impl [T]>::split_at_checked"] = s_split_at_checked
     E["core::slice::<impl [T]>::get"] = s_slice_get
     E["core::slice::<impl [T]>::get_mut"] = s_slice_get
+    E["core::slice::<impl [T]>::starts_with"] = _affix(True, False)
+    E["core::slice::<impl [T]>::ends_with"] = _affix(False, False)
+    E["core::slice::<impl [T]>::strip_prefix"] = _affix(True, True)
+    E["core::slice::<impl [T]>::strip_suffix"] = _affix(False, True)
     E["core::slice::<impl [T]>::first_chunk"] = s_first_chunk
     E["core::slice::<impl [T]>::split_first_chunk"] = s_split_first_chunk
     E["core::slice::index::<impl std::ops::Index<I> for [T]>::index"] = s_index
